@@ -2,7 +2,7 @@
     non-trivial instances (values as bit patterns). *)
 From Coq Require Import ZArith List Bool.
 From Flocq Require Import IEEE754.BinarySingleNaN IEEE754.Binary IEEE754.Bits Core.
-From JrV Require Import Gen.GenConsts Gen.GenNum C09.Model C09.Proofs.
+From JrV Require Import Gen.GenConsts Gen.GenNum C09.Model C09.Proofs C09.ProofsSet.
 Import ListNotations.
 Open Scope Z_scope.
 
@@ -17,17 +17,17 @@ Example nv_arith : finite x_third = true /\ finite x_big = true /\
   enc_num (add_impl x_third x_big) = 9214871658872686752 /\ enc_num (mul_impl x_big x_5) = -3 /\
   enc_num (div_impl x_5 x_third) = 4624633867356078080.
 Proof. vm_compute. repeat split. Qed.
-(* equality outside the known class: both answers occur *)
-Example nv_eq_outside : known_eps x_third x_5 = false /\ eq_impl x_third x_5 = false /\
-  known_eps x_5 x_5 = false /\ eq_impl x_5 x_5 = true.
+(* equality: both answers occur; the formerly merged pair 1e-20 / 2e-20 is now distinguished; +0 == -0 *)
+Example nv_eq : eq_impl x_third x_5 = false /\ eq_impl x_5 x_5 = true /\
+  eq_impl w_1e20 w_2e20 = false /\ lt_impl w_1e20 w_2e20 = true /\
+  eq_impl f_zero (b64_of_bits 9223372036854775808) = true.
 Proof. vm_compute. repeat split. Qed.
-Example nv_num_eq_epsilon : num_eq_epsilon = true.
-Proof. reflexivity. Qed.
-(* set outside the known class on a list with duplicates *)
-Example nv_set : let l := [x_5; x_m7; x_5; x_third] in
+(* sort / set / setMember on a list with duplicates, near-equal values and both zeros *)
+Example nv_set : let l := [x_5; w_2e20; x_m7; f_zero; x_5; w_1e20; b64_of_bits 9223372036854775808] in
   Forall (fun y => finite y = true) l /\
-  forallb (fun a => forallb (fun b => negb (known_eps a b)) l) l = true /\
-  map bits_of_b64 (set_impl l) = map bits_of_b64 [x_m7; x_third; x_5].
+  map bits_of_b64 (set_impl l) = map bits_of_b64 [x_m7; f_zero; w_1e20; w_2e20; x_5] /\
+  set_member_impl w_2e20 (set_impl l) = Some true /\
+  set_member_impl x_third (set_impl l) = Some false.
 Proof. vm_compute. repeat split; repeat constructor. Qed.
 (* bitwise / shifts: safe operands, a successful and a rejected shift, negative base in range *)
 Example nv_bits : safe x_5 = true /\ safe x_m7 = true /\ safe x_big = false /\
@@ -37,5 +37,7 @@ Example nv_bits : safe x_5 = true /\ safe x_m7 = true /\ safe x_big = false /\
   known_shr_count x_m7 x_5 = false /\ enc_num (shr_impl x_m7 x_5) = bits_of_b64 (of_Z (-1)) /\
   known_bnot x_m7 = false /\ enc_num (bnot_impl x_m7) = bits_of_b64 (of_Z 6).
 Proof. vm_compute. repeat split. Qed.
-Example nv_flags : shr_count_checked = false /\ bitnot_checked = false.
-Proof. split; reflexivity. Qed.
+(* `>>` and `~`: accepted and rejected operands both occur *)
+Example nv_range : enc_num (shr_impl x_m7 x_big) = -3 /\ enc_num (bnot_impl x_big) = -3 /\
+  enc_num (shr_impl x_big x_5) = -3.
+Proof. vm_compute. repeat split. Qed.
